@@ -20,9 +20,9 @@ from decimal import Decimal
 from warnings import warn
 
 from .collections import PVLModule, PVLObject, PVLGroup, Quantity
-from .grammar import PVLGrammar, ODLGrammar, PDSGrammar, ISISGrammar
+from .grammar import PVLGrammar, ODLGrammar, PDSGrammar, ISISGrammar, OmniGrammar
 from .token import Token
-from .decoder import PVLDecoder, ODLDecoder, PDSLabelDecoder
+from .decoder import PVLDecoder, ODLDecoder, PDSLabelDecoder, OmniDecoder
 
 
 class QuantTup(namedtuple("QuantTup", ["cls", "value_prop", "units_prop"])):
@@ -96,6 +96,8 @@ class PVLEncoder(object):
             self.decoder = decoder
         else:
             raise Exception
+
+        self._omni_decoder = OmniDecoder(grammar=OmniGrammar())
 
         self.indent = indent
         self.width = width
@@ -513,10 +515,17 @@ class PVLEncoder(object):
         something else (a keyword in any letter case, a number, ...)
         or would not accept it as a value at all.
         """
-        try:
-            return self.decoder.decode_simple_value(s) == s
-        except ValueError:
-            return False
+        # The permissive decoder of the default loader accepts more forms
+        # than most dialects (e.g. times with a zone offset), and must read
+        # the text back as the same string, too.
+        for decoder in (self.decoder, self._omni_decoder):
+            try:
+                if not decoder.decode_simple_value(s) == s:
+                    return False
+            except ValueError:
+                return False
+
+        return True
 
     def encode_string(self, value) -> str:
         """Returns a ``str`` formatted as a PVL String based
